@@ -1,7 +1,7 @@
 ---------------------------- MODULE Memfd_Trace ----------------------------
 (* Trace validation for C13/memfd.  One line of memtraces.ndjson per case:       *)
 (*   [size, pat, reader, exec, ev |-> << dup, handover, (exec)?, op* >>]         *)
-(*   dup      : ok, size_in, sha_in         what was supplied to DupToMemfd      *)
+(*   dup      : ok, src [size, pos, yields], size_in, sha_in   what was supplied  *)
 (*   handover : obs [size, sha, seals, pos], samples <<[off, b]>>                *)
 (*   exec     : status, ops <<[target, op, res]>> attempts of the program that   *)
 (*              was executed FROM the memfd (against /proc/self/exe, an inherited *)
@@ -27,9 +27,13 @@ Matches(obs, s) ==
   /\ obs.size = s.size /\ obs.pos = s.pos /\ ToSet(obs.seals) = s.seals
   /\ (obs.sha = sha0) = (s.content = "orig")
 
+(* dup: src = [size, pos, yields] of the reader as the driver built it; the expected content is  *)
+(* what the reader yields (size_in bytes with hash sha_in, taken independently of DupToMemfd)   *)
 EDup(e) ==
   /\ e.ok
-  /\ (Traces[t].pat # "probe" => e.size_in = Traces[t].size)
+  /\ e.size_in = ExpectedSize(e.src)
+  /\ (Traces[t].pat \notin {"probe", "kernel"} => e.size_in = Traces[t].size)
+  /\ SourceOK(Traces[t].reader, e.src)
   /\ size0' = e.size_in /\ sha0' = e.sha_in /\ st' = None /\ UNCHANGED seals0
 
 (* what DupToMemfd hands out: exactly the supplied bytes, positioned at the start; whether *)
@@ -38,7 +42,7 @@ EHandover(e) ==
   /\ e.obs.size = size0 /\ e.obs.sha = sha0 /\ e.obs.pos = 0
   /\ (~(Required \subseteq ToSet(e.obs.seals)) => TLCSet(N + t, 1))
   /\ seals0' = ToSet(e.obs.seals)
-  /\ \A i \in DOMAIN e.samples : e.samples[i].b = PatByte(Traces[t].pat, e.samples[i].off)
+  /\ \A i \in DOMAIN e.samples : e.samples[i].b = PatByte(Traces[t].pat, e.samples[i].off)   \* offsets within the supplied bytes
   /\ st' = [size |-> size0, content |-> "orig", seals |-> ToSet(e.obs.seals), pos |-> 0, exec |-> FALSE]
   /\ UNCHANGED <<size0, sha0>>
 
